@@ -26,8 +26,8 @@ impl Prop for C10 {
 
     fn profiles(tier: Tier) -> Vec<Profile> {
         match tier {
-            Tier::Quick => vec![prof("mixed", 120_000), prof("twins", 60_000), prof("capi", 6_000)],
-            Tier::Thorough => vec![prof("mixed", 1_000_000), prof("twins", 500_000), prof("capi", 80_000)],
+            Tier::Quick => vec![prof("mixed", 120_000), prof("twins", 60_000), prof("capi", 6_000), prof("many_twins", 1_500)],
+            Tier::Thorough => vec![prof("mixed", 1_000_000), prof("twins", 500_000), prof("capi", 80_000), prof("many_twins", 20_000)],
         }
     }
 
@@ -63,8 +63,9 @@ impl Prop for C10 {
             ev_weights: [2, 2, 2, 3, 6, 2, 6, 3, 6, 3],
             ..HistParams::default()
         };
-        let twins = profile == "twins";
-        (1usize..=4)
+        let twins = profile == "twins" || profile == "many_twins";
+        let ks = if profile == "many_twins" { 33usize..=100 } else { 1usize..=4 };
+        ks
             .prop_flat_map(move |k| {
                 let n = k + 1;
                 (
